@@ -1522,6 +1522,13 @@ Op:
 		// save current word
 		word := l.word
 		l.word = ast.Word{}
+		if l.dquote > 0 && strings.ContainsAny(pe.Op, "%#") {
+			// a pattern is read as if it did not stand inside the
+			// double-quotes, and so are the expansions in it
+			dquote := l.dquote
+			l.dquote = 0
+			defer func() { l.dquote = dquote }()
+		}
 	Word:
 		for {
 			r, err = l.read()
